@@ -132,7 +132,7 @@ def run(ctx):
     for depth in (5, 30):
         ch = [(i, i + 1) for i in range(depth - 1)]
         cases.append({'n': depth, 'edges': ch, 'kind': 'chain', 'real': 'enum-alias', 'text': realise_enum(depth, ch, rng), 'model': None})
-    impl = core.run_lines(core.VH, ['analyze ' + core.hexs(c['text']) for c in cases], jobs=12)
+    impl = core.run_lines(core.VH, ['analyze ' + core.hexs(c['text']) for c in cases], jobs=12, line_timeout=60)
     model = core.run_lines(core.PLCDRV, ['c07 ' + ' '.join(c['model']) if c['model'] is not None else 'noop' for c in cases], jobs=12) if ctx.model_available else [None] * len(cases)
     for c, io, mo in zip(cases, impl, model):
         ctx.evaluations += 1
@@ -142,7 +142,9 @@ def run(ctx):
         show = {'n': c['n'], 'edges': c['edges'], 'realisation': c['real'], 'text': c['text'] if c['n'] <= 6 else c['text'][:300] + '…'}
         if c['edges']:
             ctx.feature((c['real'], c['n'], tuple(sorted(c['edges']))))
-        if io.startswith('PANIC') or io.startswith('DIED') or io.startswith('ERR PARSE'):
+        if io.startswith('SKIPPED'):
+            ctx.count('skipped-after-repeated-timeouts'); continue
+        if io.startswith('PANIC') or io.startswith('DIED') or io.startswith('TIMEOUT') or io.startswith('ERR PARSE'):
             ctx.violations.append({'stream': 'graph', 'case': show, 'what': f'analyze did not produce a verdict: {io[:120]}', 'impl': io, 'model': mo})
             continue
         codes = [d.split('@')[0] for d in io.split()[1:]]
